@@ -16,6 +16,7 @@
 #if defined(CNL_IOSTREAMS_ENABLED)
 #include <ostream>
 #endif
+#include <type_traits>
 
 /// compositional numeric library
 namespace cnl {
@@ -24,7 +25,13 @@ namespace cnl {
         template<any_wrapper N>
         auto& operator<<(std::ostream& o, N const& i)
         {
-            return o << to_rep(i);
+            using rep = rep_of_t<N>;
+            if constexpr (std::is_integral_v<rep> && sizeof(rep) == 1) {
+                // a character type used as a number: print the numeral, not the character
+                return o << static_cast<int>(to_rep(i));
+            } else {
+                return o << to_rep(i);
+            }
         }
 #endif
     }
